@@ -31,8 +31,12 @@ package reader
 
 // C04: an object is only returned when the object parsed at the entry's location carries the number asked for;
 // a compressed entry is looked up in the stream entry.Offset at index entry.Generation.
+// the object is parsed through positioned reads of its own (io.SectionReader): the shared file offset is never moved
+// here, so a nested lookup (indirect /Length) cannot disturb an outer parser - what a lookup returns does not depend on
+// which lookups came before
 //@ func (*Reader) getUncompressedObject results (obj, err)
 //@   property C04
+//@   callsite Seek(o, w) requires the_shared_file_offset_is_never_moved: false
 //@   atreturn number_verified: indObj.Ref.Number == objNum
 
 // representation invariant of the object-stream cache: every cached stream was built by core.NewObjectStream
